@@ -74,6 +74,52 @@ def r1_fresh(prog, res):
             "%s is emptied before it is filled for this inverse attribute" % q.split("::")[-1] if ok else
             "%s is filled for each inverse attribute but never emptied in between: the referrers collected for the previous inverse "
             "attribute (other entity types) are examined again for this one" % q.split("::")[-1])
+    # every other member container of lazyRefs that the per-attribute pass (checkAnInvAttr and what it calls inside lazyRefs) changes
+    # is state of *one* inverse attribute: it has to be emptied in checkAnInvAttr before the calls that change it, otherwise what was
+    # recorded for one inverse attribute (e.g. "this referrer is already listed") leaks into the next
+    MUT = ("insert", "push_back", "emplace", "emplace_back", "erase", "operator[]")
+    per_attr = {}
+    seen_fn = set()
+    work = [f]
+    while work:
+        h = work.pop()
+        if h.key in seen_fn:
+            continue
+        seen_fn.add(h.key)
+        for c in h.calls():
+            if c.get("member") and (c.get("fn") or "").split("::")[-1] in MUT and c.get("ch"):
+                o = strip(c["ch"][0])
+                if o is not None and o["k"] == "Member" and (o.get("q") or "").startswith("lazyRefs::"):
+                    per_attr.setdefault(o["q"], set()).add(h.key)
+            if (c.get("fn") or "").startswith("lazyRefs::") and c.get("fk"):
+                for h2 in prog.all_functions():
+                    if h2.key == c["fk"] and h2.key not in seen_fn:
+                        work.append(h2)
+    for q2, where_keys in sorted(per_attr.items()):
+        if q2 == q:
+            continue
+        # calls in checkAnInvAttr that (transitively) reach a mutator of q2
+        def reaches(k, seen=None):
+            seen = seen or set()
+            if k in where_keys:
+                return True
+            seen.add(k)
+            for h in prog.all_functions():
+                if h.key == k:
+                    for c in h.calls():
+                        if (c.get("fn") or "").startswith("lazyRefs::") and c.get("fk") and c["fk"] not in seen and reaches(c["fk"], seen):
+                            return True
+                    break
+            return False
+        users = [c for c in f.calls() if (c.get("fn") or "").startswith("lazyRefs::") and c.get("fk") and reaches(c["fk"])]
+        if f.key in where_keys:
+            users += [c for c in f.calls() if c.get("member") and (c.get("fn") or "").split("::")[-1] in MUT and c.get("ch") and member_is(c["ch"][0], q2)]
+        clears2 = [c for c in f.calls() if c.get("member") and (c.get("fn") or "").split("::")[-1] == "clear" and c.get("ch") and member_is(c["ch"][0], q2)]
+        ok2 = bool(users) and all(any(f.cfg.dominates(f.cfg.locate(k), f.cfg.locate(u)) for k in clears2) for u in users)
+        res.add("R1.per_attribute_state_reset", "R1|src/cllazyfile/lazyRefs.h|checkAnInvAttr|%s" % q2.split("::")[-1], f.where(users[0]) if users else f.where(), ok2,
+                "%s is emptied for each inverse attribute before it is used" % q2.split("::")[-1] if ok2 else
+                "%s is changed while one inverse attribute is resolved but not emptied in checkAnInvAttr: what was recorded for an earlier inverse "
+                "attribute of the same instance still counts for the next (a referrer that refers through two attributes is missing from the second)" % q2.split("::")[-1])
     # the loop that consumes it iterates the same member
     loops = [x for x in f.walk() if x["k"] == "For"]
     ok = any(q.split("::")[-1] + ".end" in re.sub(r"[\s()]", "", " ".join(expr_str(c) for c in lp["ch"][:3] if c is not None)) for lp in loops)
